@@ -575,6 +575,33 @@ func factsMapRanges(o *out, ps pkgs) {
 	}
 	sort.Strings(sites)
 	o.def("mapRangeSites", "List (String × String × String × String)", joinTuples(sites))
+	// other sources of run-to-run variation in the conversion packages: goroutines, select, random numbers, clock
+	var conc []string
+	for _, pk := range []string{"IG-Parser/core/parser", "IG-Parser/core/tree", "IG-Parser/core/exporter/tabular", "IG-Parser/core/endpoints", "IG-Parser/core/shared"} {
+		p := ps[pk]
+		short := pk[strings.LastIndex(pk, "/")+1:]
+		for _, f := range p.Syntax {
+			for _, im := range f.Imports {
+				path := strings.Trim(im.Path.Value, "\"")
+				if path == "math/rand" || path == "math/rand/v2" || path == "crypto/rand" || path == "time" || path == "sync" || path == "sync/atomic" {
+					conc = append(conc, "("+lq(short)+", "+lq("import "+path)+")")
+				}
+			}
+		}
+		enclosingFuncs(p, func(fn string, fd *ast.FuncDecl) {
+			ast.Inspect(fd.Body, func(n ast.Node) bool {
+				switch n.(type) {
+				case *ast.GoStmt:
+					conc = append(conc, "("+lq(short+"."+fn)+", "+lq("go statement")+")")
+				case *ast.SelectStmt:
+					conc = append(conc, "("+lq(short+"."+fn)+", "+lq("select statement")+")")
+				}
+				return true
+			})
+		})
+	}
+	sort.Strings(conc)
+	o.def("nondeterminismSources", "List (String × String)", joinTuples(conc))
 }
 
 // ---- web ------------------------------------------------------------------------------------
